@@ -47,6 +47,8 @@ CALIBRATED_RULES = [
     "outside the listed dunders (abs()) give Python's own TypeError",
     "`upper` keeps Markup-ness; `int` lets UndefinedError through; `first` of an empty iterable is undefined",
     "call arguments are evaluated positional, *args, keyword, **kwargs",
+    "a slice `a[i:j:k]` subscripts the object directly (TypeError/KeyError propagate) instead of the item-then-attribute-"
+    "then-undefined lookup the docs describe for `a[b]`",
     "`sameas` on equal str/float/tuple/large-int operands is left unspecified (CPython constant identity)",
 ]
 
@@ -754,7 +756,7 @@ class Ev:
             a = None if n[2] is None else self.ev(n[2])
             b = None if n[3] is None else self.ev(n[3])
             c = None if n[4] is None else self.ev(n[4])
-            return obj[slice(a, b, c)]
+            return obj[slice(a, b, c)]  # CALIBRATED: no undefined fallback for slices
         if k == "call":
             f = self.ev(n[1])
             args = [self.ev(a) for a in n[2]]
